@@ -79,10 +79,10 @@ func ownedOrLookup(c *core.Ctx, v ssa.Value) (bool, string) {
 				return calleeReturnsOwned(c, call, x.Index, d, walk)
 			}
 		case *ssa.Call:
-			n := core.CalleeName(&x.Call)
+			n := core.CalleeName(core.NormCall(&x.Call))
 			if strings.HasPrefix(n, "(*math/big.Int).") {
-				if bigIntMutating[n[len("(*math/big.Int)."):]] && len(x.Call.Args) > 0 {
-					return walk(x.Call.Args[0], d+1)
+				if bigIntMutating[n[len("(*math/big.Int)."):]] && len(core.NormCall(&x.Call).Args) > 0 {
+					return walk(core.NormCall(&x.Call).Args[0], d+1)
 				}
 				return false, ""
 			}
@@ -323,10 +323,10 @@ func liveFromState(c *core.Ctx, v ssa.Value, outs map[string]*ownedOut) string {
 				}
 			}
 		case *ssa.Call:
-			n := core.CalleeName(&x.Call)
+			n := core.CalleeName(core.NormCall(&x.Call))
 			if strings.HasPrefix(n, "(*math/big.Int).") {
-				if bigIntMutating[n[len("(*math/big.Int)."):]] && len(x.Call.Args) > 0 {
-					return walk(x.Call.Args[0], d+1) // z.Op(...) returns z
+				if bigIntMutating[n[len("(*math/big.Int)."):]] && len(core.NormCall(&x.Call).Args) > 0 {
+					return walk(core.NormCall(&x.Call).Args[0], d+1) // z.Op(...) returns z
 				}
 				return ""
 			}
